@@ -1,5 +1,6 @@
 import Claripy.AST.Rules
 import Claripy.AST.Fold
+import Claripy.AST.Meta
 /-! S-expression reader/printer and the `ev` / `fold` / `rules` requests of the line protocol. -/
 namespace Driver.Expr
 open Claripy.AST
@@ -100,6 +101,15 @@ def handleRules (toks : List String) : String :=
     match candidates t with
     | [] => "none"
     | cs => " ;; ".intercalate (cs.map fun (n, e) => n ++ " => " ++ toSexpr e)
+  | none => "bad-op"
+
+/-- `meta <sexpr>` : width / variables / depth / symbolic as the model computes them -/
+def handleMeta (toks : List String) : String :=
+  match parseExpr toks with
+  | some e =>
+    let w := match e.width with | some w => toString w | none => "none"
+    let vs := (e.vars.eraseDups.toArray.qsort (· < ·)).toList
+    s!"w={w} vars={",".intercalate vs} depth={e.depth} sym={if e.symbolic then 1 else 0}"
   | none => "bad-op"
 
 end Driver.Expr
